@@ -19,7 +19,7 @@ ASSUMPTIONS = [
     "implemented content rules are recognised behaviourally: validating a node governed by the rule must not report "
     "UNKNOWN_CONTENT_RULE / UnknownContentRuleError",
 ]
-REQUIRED = ["loader_copies_edited", "child_name_variants_checked", "rule_queries_exercised", "late_registration_probes", "minimal_trees_accepted_after_queries", "minimal_trees_accepted_after_history", "minimal_trees_accepted_after_repair", "elements_resolved", "rules_parsed", "child_names_checked", "minimal_trees_accepted", "content_rules_exercised"]
+REQUIRED = ["permitted_pairs_accepted", "minimal_trees_accepted_after_legacy_documents", "loader_copies_edited", "child_name_variants_checked", "rule_queries_exercised", "late_registration_probes", "minimal_trees_accepted_after_queries", "minimal_trees_accepted_after_history", "minimal_trees_accepted_after_repair", "elements_resolved", "rules_parsed", "child_names_checked", "minimal_trees_accepted", "content_rules_exercised"]
 EXHAUSTIVE = {"quick": True, "thorough": True}
 
 
@@ -309,6 +309,58 @@ def query_phase(ctx, gen, elements):
                        "minimal_trees_accepted_after_queries", "no-valid-tree-after-rule-queries")
 
 
+def pair_sweep(ctx, gen, elements):
+    """Every parent/child pair the tables permit: a smallest valid tree of the parent that holds the child passes whole-tree validation in
+    both modes (the child is validated with its parent link set - whatever a lookup by parent does, it has to find a rule)."""
+    from vlib import anytrees
+    known = set(elements)
+    for e in elements:
+        try:
+            names = emlkit.spec_of(mrule.get_rule_name(e)).names
+        except Exception:
+            continue
+        for c in names:
+            if c not in known:
+                continue
+            t = anytrees.tree_through(gen, e, c)
+            if t is None:
+                continue
+            judge_tree(ctx, t, f"smallest tree of {e} holding a {c}", {"element": e, "child": c, "kind": "pair"}, "permitted_pairs_accepted",
+                       f"no-valid-tree-through-permitted-child:{c}@{e}")
+
+
+def legacy_document_history(ctx, gen, elements):
+    """A document in an older EML namespace that fails fail-fast validation, followed by everything else: what the library knows about
+    the vocabulary afterwards is what it knew before."""
+    from vlib.emlkit import Node
+    for uri in ("eml://ecoinformatics.org/eml-2.1.1", "eml://ecoinformatics.org/eml-2.0.1", "https://eml.ecoinformatics.org/eml-2.2.0"):
+        root = Node("eml")
+        root.prefix = "eml"
+        root.add_namespace("eml", uri)
+        root.add_attribute("packageId", "p")
+        root.add_attribute("system", "s")
+        ds = Node("dataset")
+        root.add_child(ds)
+        ds.add_child(Node("licensed"))
+        ds.add_child(Node("verifUnknown"))
+        for call in (lambda: mvalidate.tree(root), lambda: mvalidate.tree(root, []), lambda: mvalidate.prune(root.copy(), strict=True)):
+            try:
+                call()
+            except Exception:
+                pass
+        ctx.count("legacy_documents_validated")
+        emlkit.discard(root)
+    now = set(mrule.node_names())
+    missing = [e for e in elements if e not in now]
+    if missing:
+        ctx.violation("known-names-lost-after-a-history", f"after validating documents in older EML namespaces node_names() lacks {missing[:5]}",
+                      {"kind": "legacy-history"})
+    for e in elements:
+        if gen.buildable(e):
+            judge_tree(ctx, gen.minimal_tree(e), f"minimal tree of {e} after legacy-namespace documents were validated", {"element": e, "kind": "legacy-history"},
+                       "minimal_trees_accepted_after_legacy_documents", "no-valid-tree-after-legacy-documents")
+
+
 def late_registration(ctx):
     """An element name registered in the element-to-rule map after the library has been used (a downstream package switching on a
     mapping the library ships commented out): if the library lists the name as known, it must resolve it like every other."""
@@ -382,6 +434,8 @@ def run(ctx, params):
             check_element(ctx, gen, e)
         history_phase(ctx, gen, elements)
         query_phase(ctx, gen, elements)
+        pair_sweep(ctx, gen, elements)
+        legacy_document_history(ctx, gen, elements)
         late_registration(ctx)
         ctx.sample({"element": "eml", "minimal_tree": snapshot.to_plain(gen.minimal_tree("eml")) if gen.buildable("eml") else None})
     if ctx.tier == "thorough":
@@ -401,6 +455,10 @@ def replay(ctx, witness):
     if "tree" in witness:
         t = snapshot.from_plain(emlkit.Node, witness["tree"])
         judge_tree(ctx, t, "recorded tree", witness, "replayed", f"no-valid-tree:{witness.get('element')}")
+    elif witness.get("kind") == "pair":
+        pair_sweep(ctx, gen, mrule.node_names())
+    elif witness.get("kind") == "legacy-history":
+        legacy_document_history(ctx, gen, mrule.node_names())
     elif witness.get("kind") == "late-registration":
         mvalidate.tree(gen.minimal_tree("eml"), [])
         late_registration(ctx)
